@@ -102,7 +102,7 @@ func c16Run(r *fw.R, d c16Desc) {
 		c.SetReadLimit(100)
 	}
 	rng := fw.NewRand(d.Seed)
-	var impatientPings, gaveUpQueued atomic.Int64
+	var impatientPings, gaveUpQueued, appCloses atomic.Int64
 	ctx, cancel := context.WithTimeout(context.Background(), 40*time.Second)
 	defer cancel()
 
@@ -203,6 +203,15 @@ func c16Run(r *fw.R, d c16Desc) {
 		}
 		if f.Op == wire.OpClose && closeSeenAt.CompareAndSwap(0, n) {
 			runningAtClose.Store(running.Load())
+			if d.Seed%2 == 0 {
+				// the application also calls Close (a deferred Close, a shutdown path) after the library has
+				// sent its Close frame for whatever reason: that attempt must change nothing on the wire
+				go func() {
+					time.Sleep(time.Duration(1+d.Seed%5) * time.Millisecond)
+					c.Close(websocket.StatusGoingAway, "application shutting down")
+				}()
+				appCloses.Add(1)
+			}
 			switch d.Echo {
 			case "early":
 				peer.Send(wire.Close(f.Payload))
@@ -380,6 +389,7 @@ func c16Run(r *fw.R, d c16Desc) {
 		r.Count("traces_with_writers_running_at_close", 1)
 	}
 	r.Count("callers_gave_up_while_queued_behind_a_stalled_frame", gaveUpQueued.Load())
+	r.Count("application_close_calls_after_the_close_frame", appCloses.Load())
 	r.Count("writes_ok", writesOK.Load())
 	r.Count("writes_refused_after_close", writesFailedAfterClose.Load())
 }
